@@ -17,7 +17,7 @@ from ufl.core.multiindex import Index
 
 from ufv import corpus
 from ufv import elements as E
-from ufv.core import proved, undecided, violated
+from ufv.core import crash_text, deliberate, proved, undecided, violated
 from ufv.den import World, den
 from ufv.opq import Opq, mesh
 from ufv.semv import check_same
@@ -88,6 +88,8 @@ def build(run):
                 try:
                     r = replace(e, m)
                 except ValueError as ex:
+                    if not deliberate(ex):
+                        return violated(f"crash instead of a result or a refusal: {crash_text(ex)}", reproduced=True, backend="exec")
                     return proved("refused", sample=f"{tag}: {ex}"[:200])
                 except Exception as ex:  # noqa: BLE001
                     return violated(f"{tag}: replace crashed: {type(ex).__name__}: {ex}", replay={"expr": str(e), "mapping": str(m)}, reproduced=True)
